@@ -443,12 +443,17 @@ def lagrange_rule(ctx):
     alpha = Poly.var("alpha")
     A, b = RecMat(alpha), RecMat(alpha)
     size = 8
-    dd = [3, 5]
+    dd = [5, 3]  # entered out of increasing order: the far end of a member constrained before the near end
     vv = [Poly.var("v0"), Poly.var("v1")]
+    from .c03 import XCsr
+
+    # what _Solver_Apply_Dirichlet returns with the matrix: the (size, 1) sparse vector of the prescribed values (canonical
+    # CSR: its .data is ordered by dof number, not by entry)
+    xvec = XCsr((XArray((2,), vv), (XArray((2,), dd), XArray((2,), [0, 0]))), shape=(size, 1))
     lag = SimpleNamespace(dofs=XArray((2,), [1, 2]), dofsValues=XArray((1,), [Poly.var("c0")]), lagrangeCoefs=XArray((2,), [Poly.var("l0"), Poly.var("l1")]))
     simu = SimpleNamespace(
         mesh=SimpleNamespace(Nn=4), Get_dof_n=lambda pt=None: 2,
-        _Solver_Apply_Neumann=lambda pt: b, _Solver_Apply_Dirichlet=lambda pt, bb, res: (A, Opaque("x")),
+        _Solver_Apply_Neumann=lambda pt: b, _Solver_Apply_Dirichlet=lambda pt, bb, res: (A, xvec),
         Bc_dofs_Dirichlet=lambda pt=None: XArray((2,), dd), Bc_values_Dirichlet=lambda pt=None: XArray((2,), vv),
         Bc_Lagrange=[lag], Get_x0=lambda pt=None: XArray((size,), [0] * size), _verbosity=False,
     )
